@@ -216,7 +216,7 @@ def rename_locals(tree):
                 n.id = mapping[n.id]
 
 
-def run_for(pid, seed=0, repo=None, workers=None, variants=('unparse', 'unparse+noise')):
+def run_for(pid, seed=0, repo=None, workers=None, variants=('unparse', 'unparse+noise', 'rename-locals')):
     from .mutants import MUTANTS
     repo = repo or os.environ.get('VSA_REPO', REPO)
     with contextlib.redirect_stdout(io.StringIO()):
